@@ -99,7 +99,12 @@ Definition sanitize_union (children : list ssel) (cond odef : string) : list sse
 Definition sanitize_iface (sc : sschema) (children : list ssel) (cond odef : string) : list ssel :=
   let pts := possible_of sc odef in
   if smem cond pts then [SanFrag cond odef children]
-  else fold_left (fun acc pt => add_to_result acc [SanFrag pt pt children]) pts children.
+  else
+    (* a fragment on ANOTHER abstract type applies to the possible types both have, and its fields are not selected for
+       the other objects of the interface (since the fix; before, they were hoisted to the level of the interface) *)
+    let partial := (match kind_of sc cond with KOther => false | _ => true end) && negb (cond =? odef) in
+    let pts' := if partial then filter (fun pt => smem pt (possible_of sc cond)) pts else pts in
+    fold_left (fun acc pt => add_to_result acc [SanFrag pt pt children]) pts' (if partial then [] else children).
 
 (* setMissingScrubFieldsForFieldSelectionSet *)
 Definition set_missing (sc : sschema) (ip : list string) (alias ty : string) (sel : list ssel) (s : scrub) (added : list string) : scrub :=
